@@ -359,7 +359,8 @@ class VQESolver:
         if isinstance(operator, str):
             if n_active_mos is None:
                 if self.molecule:
-                    n_active_mos = self.molecule.n_active_mos
+                    # n_active_mos is a [n_alpha, n_beta] list for UHF molecules; the register has n_active_sos // 2 orbitals per spin
+                    n_active_mos = self.molecule.n_active_sos // 2
                 else:
                     raise KeyError("Must supply n_active_mos when a QubitHamiltonian has initialized VQESolver"
                                    " and requesting the expectation of 'N', 'Sz', or 'S^2'")
@@ -379,12 +380,13 @@ class VQESolver:
             raise TypeError("operator must be a of string, FermionOperator or QubitOperator type.")
 
         if isinstance(operator, (str, FermionOperator)):
-            if (n_active_electrons is None or n_active_sos is None or spin is None) and self.qubit_mapping == "scbk":
+            if n_active_electrons is None or n_active_sos is None or spin is None:
+                # Every encoding but plain JW needs (some of) these numbers: take them from the molecule whenever there is one.
                 if self.molecule:
-                    n_active_electrons = self.molecule.n_active_electrons
-                    n_active_sos = self.molecule.n_active_sos
-                    spin = self.molecule.active_spin
-                else:
+                    n_active_electrons = self.molecule.n_active_electrons if n_active_electrons is None else n_active_electrons
+                    n_active_sos = self.molecule.n_active_sos if n_active_sos is None else n_active_sos
+                    spin = self.molecule.active_spin if spin is None else spin
+                elif self.qubit_mapping.lower() == "scbk":
                     raise KeyError("Must supply n_active_electrons, n_active_sos, and spin with a FermionOperator and scbk mapping.")
 
             self.qubit_hamiltonian = fermion_to_qubit_mapping(fermion_operator=exp_op,
